@@ -55,6 +55,14 @@ def check(c):
         return dict(**{"class": "feature-names"}, what="name of column %d is %r, scikit-learn: %r" % (k, names[k], sknames[k]))
     if not numpy.array_equal(X, X0):
         return dict(**{"class": "input-mutated"}, what="input modified")
+    # every call, not only the first of the process: another estimator with the same configuration, and the same one again, on new data
+    X2 = rs.randint(-3, 4, size=(4, c["n"])).astype(float)
+    exp2 = sk.transform(X2)
+    m2 = ExtendedFeatures(kind=c["kind"], poly_degree=c["degree"], poly_interaction_only=c["interaction_only"], poly_include_bias=c["include_bias"]).fit(X2)
+    for who, est in (("a second estimator of the same configuration", m2), ("the same estimator called again", m)):
+        got2 = est.transform(X2)
+        if got2.shape != exp2.shape or not numpy.array_equal(got2, exp2):
+            return dict(**{"class": "repeated-call"}, what="%s differs from PolynomialFeatures on new data" % who)
     return None
 
 
